@@ -107,6 +107,10 @@ struct Inner {
     /// closure stage at which workers are gated
     gate_stage: u32,
     rr: u32,
+    /// exhaustive enumeration: past the given prefix always grant the smallest parked actor, and
+    /// record the set of parked actors at every grant
+    exhaust: bool,
+    choices: Vec<Vec<u32>>,
 }
 
 pub struct Sched {
@@ -129,6 +133,8 @@ fn sched() -> &'static Sched {
             granted: vec![],
             gate_stage: 0,
             rr: 0,
+            exhaust: false,
+            choices: vec![],
         }),
         cv: Condvar::new(),
     })
@@ -153,11 +159,19 @@ impl Sched {
                 break;
             }
         }
-        // schedule exhausted: round-robin over the parked actors (fair)
+        // schedule exhausted: round-robin over the parked actors (fair); under exhaustive
+        // enumeration the smallest parked actor (the lexicographically least continuation)
         let a = chosen.unwrap_or_else(|| {
-            i.rr = i.rr.wrapping_add(1);
-            parked[(i.rr as usize) % parked.len()]
+            if i.exhaust {
+                parked[0]
+            } else {
+                i.rr = i.rr.wrapping_add(1);
+                parked[(i.rr as usize) % parked.len()]
+            }
         });
+        if i.exhaust {
+            i.choices.push(parked.clone());
+        }
         i.turn = Some(a);
         i.granted.push(a);
     }
@@ -206,6 +220,19 @@ pub fn sched_on(schedule: Vec<u32>, gate_stage: u32) {
     g.granted.clear();
     g.gate_stage = gate_stage;
     g.rr = 0;
+    g.exhaust = false;
+    g.choices.clear();
+}
+
+/// exhaustive enumeration mode for the next case (call after `sched_on`)
+pub fn sched_exhaust() {
+    let mut g = sched().m.lock().unwrap();
+    g.exhaust = true;
+}
+
+/// the sets of parked actors at every grant of the last controlled case (exhaustive mode only)
+pub fn sched_choices() -> Vec<Vec<u32>> {
+    std::mem::take(&mut sched().m.lock().unwrap().choices)
 }
 
 /// switch it off; returns the sequence of grants that actually happened
